@@ -94,3 +94,53 @@ func VerifC13_RetriesSymbolic() {
 	vAssert("symbolic/fails-iff-more-failures-than-retries", (err != nil) == (F > R))
 	vReach("ran")
 }
+
+// The writer of the buffered output refuses every Write: attempts still run one
+// after the other, at most retries+1 times, and never again after a success.
+func VerifC13_WriterFails() {
+	vNativeReset()
+	s := newScenario(scenarioOpts{n: 2, maxRetries: 1, outcomes: oErr})
+	s.buffered = true
+	s.writer = failingWriter{}
+	s.build()
+	err := s.run()
+	vObserve("failed", err != nil)
+	s.orderingAsserts()
+	vReach("ran")
+}
+
+// A retry count below zero (SYMBOLIC) must not switch a task off: its dependent
+// is entered only after the task itself was entered and returned nil.
+func VerifC13_NegativeRetries() {
+	vNativeReset()
+	R := vInt("R", -1000, -1)
+	tEntered, tReturnedNil, dEnteredEarly, dEntered := 0, false, false, 0
+	t := NewTask("t", func(ctx context.Context, opt *getoptions.GetOpt, args []string) error {
+		tEntered++
+		vYield(0)
+		tReturnedNil = true
+		return nil
+	})
+	d := NewTask("d", func(ctx context.Context, opt *getoptions.GetOpt, args []string) error {
+		dEntered++
+		if !tReturnedNil {
+			dEnteredEarly = true
+		}
+		vYield(1)
+		return nil
+	})
+	g := NewGraph("g")
+	g.AddTask(t)
+	g.AddTask(d)
+	g.TaskDependsOn(d, t)
+	g.TaskRetries(t, R)
+	vPhase("run")
+	err := g.Run(vNewContext(), nil, nil)
+	vObserve("failed", err != nil)
+	vObserve("t", tEntered)
+	vAssert("negative-retries/dependent-only-after-dependency-returned-nil", !dEnteredEarly)
+	if err == nil {
+		vAssert("negative-retries/every-task-ran-once", tEntered == 1 && dEntered == 1)
+	}
+	vReach("ran")
+}
